@@ -14,7 +14,8 @@ static int CORPUS_DEEP;          /* thorough bounds */
 static const mc_tok_t CA_CROSS[] = { MC_TOK("a"), MC_TOK("1"), MC_TOK("."), MC_TOK("-"), MC_TOK("@"), MC_TOK("["), MC_TOK("]"), MC_TOK(":"), MC_TOK(" "), MC_TOK("("), MC_TOK("\x01"), MC_TOK("#") };
 static const mc_tok_t CA_EMAIL[] = { MC_TOK("a"), MC_TOK("."), MC_TOK("@"), MC_TOK("["), MC_TOK("]"), MC_TOK("\""), MC_TOK("\\"), MC_TOK(" "), MC_TOK("1"), MC_TOK(":"), MC_TOK("-"), MC_TOK("\xd0\x96") };
 static const mc_tok_t CA_LOCAL[] = { MC_TOK("a"), MC_TOK("."), MC_TOK("\""), MC_TOK("\\"), MC_TOK(" "), MC_TOK("\t"), MC_TOK("\r"), MC_TOK("\n"), MC_TOK("\x01"), MC_TOK("\x7f"), MC_TOK("("), MC_TOK("#"),
-                                     MC_TOK("\x80"), MC_TOK("\xd0\x96"), MC_TOK("\xe9\xa6\x99"), MC_TOK("\xc3") };
+                                     MC_TOK("\x80"), MC_TOK("\xd0\x96"), MC_TOK("\xe9\xa6\x99"), MC_TOK("\xc3"), MC_TOK("\xf0\x9f\x98\x80") };
+#define NCA_LOCAL 17
 static const mc_tok_t CA_DOM[] = { MC_TOK("a"), MC_TOK("Z"), MC_TOK("1"), MC_TOK("-"), MC_TOK("."), MC_TOK("_"), MC_TOK("!"), MC_TOK("\x80"), MC_TOK("\xd0\xb6") };
 static const mc_tok_t CA_LIT[] = { MC_TOK("1"), MC_TOK("0"), MC_TOK("a"), MC_TOK("g"), MC_TOK(":"), MC_TOK("."), MC_TOK("IPv6:"), MC_TOK("]"), MC_TOK("[") };
 
@@ -40,12 +41,12 @@ static int corpus_load(void) {
     corpus_loaded = 1; return 0;
 }
 
-enum { CP_CROSS, CP_EMAIL, CP_LOCAL, CP_DOMAIN, CP_LITERAL, CP_TLD, CP_IDN, CP_BYTES, CP_LONG, CP_LONGIDN, CP_ALTDOT, CP_LABELLEN, CP_MAXLIT, CP_SCALARS, CP_N };
+enum { CP_CROSS, CP_EMAIL, CP_LOCAL, CP_DOMAIN, CP_LITERAL, CP_TLD, CP_IDN, CP_BYTES, CP_LONG, CP_LONGIDN, CP_ALTDOT, CP_LABELLEN, CP_MAXLIT, CP_LPXDOM, CP_WHOLEDOM, CP_SCALARS, CP_N };
 static const char *corpus_name(int i) {
     static const char *n[] = {
         "cross: all strings over {a 1 . - @ [ ] : SP ( 0x01 #}",
         "email: all strings over {a . @ [ ] \" \\ SP 1 : - U+0416}",
-        "local: all local parts over 16 classes x 4 domains",
+        "local: all local parts over 17 classes x 4 domains, and inside a quoted string",
         "domain: all domains over {a Z 1 - . _ ! 0x80 U+0436} after x@",
         "literal: all bracket contents over {1 0 a g : . IPv6: ] [} + structured v4/v6",
         "tld: every table row x prefixes, reserved names x prefixes x label lengths, near misses, single labels",
@@ -56,7 +57,9 @@ static const char *corpus_name(int i) {
         "altdot: reserved names and table rows spelled with U+3002/U+FF0E/U+FF61 dots and fullwidth letters",
         "labellen: labels of 58-70 characters with '_' / '-' tails in every position",
         "maxlit: maximal-length valid address literals followed by junk inside the brackets",
-        "scalars: every non-ASCII Unicode scalar value as an atom character, quoted and in a domain label" };
+        "lpxdom: 40 local-part shapes (quoted colons, dots, brackets, '@', digits, tags) x 36 domain parts (literals of both families, host names)",
+        "wholedom: every code point of U+0080-2FFF, U+FE00-FFFF, U+1BCA0-1BCAF, U+E0000-E01FF (thorough: every scalar) as the whole domain, doubled, as both labels, rooted, as last label",
+        "scalars: every non-ASCII Unicode scalar value as an atom character, quoted (alone, after and before a space) and in a domain label" };
     return n[i];
 }
 static int corpus_N(int i) {
@@ -73,7 +76,7 @@ static long corpus_shards(int i) {
     switch (i) {
     case CP_CROSS: return c_enum_shards(12, 2);
     case CP_EMAIL: return c_enum_shards(12, 2);
-    case CP_LOCAL: return c_enum_shards(16, 2);
+    case CP_LOCAL: return c_enum_shards(NCA_LOCAL, 2);
     case CP_DOMAIN: return c_enum_shards(9, 2);
     case CP_LITERAL: return c_enum_shards(9, 2) + 2;
     case CP_TLD: return RT_PUNY.n + 8 * 64 + 1;
@@ -84,6 +87,8 @@ static long corpus_shards(int i) {
     case CP_ALTDOT: return 8 + 1;
     case CP_LABELLEN: return 13;
     case CP_MAXLIT: return 6;
+    case CP_LPXDOM: return 40;
+    case CP_WHOLEDOM: return CORPUS_DEEP ? 0x110000 / 0x400 : 15;
     case CP_SCALARS: return 0x110000 / 0x1000;
     }
     return 0;
@@ -107,10 +112,11 @@ static void corpus_run(int ph, long shard, emit_fn emit, void *arg) {
     case CP_CROSS: c_enum(CA_CROSS, 12, corpus_N(ph), 2, shard, "", "", emit, arg); break;
     case CP_EMAIL: c_enum(CA_EMAIL, 12, corpus_N(ph), 2, shard, "", "", emit, arg); break;
     case CP_LOCAL:
-        c_enum(CA_LOCAL, 16, corpus_N(ph), 2, shard, "", "@ok.com", emit, arg);
-        c_enum(CA_LOCAL, 16, corpus_N(ph) - 1, 2, shard, "", "@[192.0.2.1]", emit, arg);
-        c_enum(CA_LOCAL, 16, corpus_N(ph) - 1, 2, shard, "", "@bad..dom", emit, arg);
-        c_enum(CA_LOCAL, 16, corpus_N(ph) - 1, 2, shard, "", "@\xd0\xbf.\xd1\x80\xd1\x84", emit, arg);
+        c_enum(CA_LOCAL, NCA_LOCAL, corpus_N(ph), 2, shard, "", "@ok.com", emit, arg);
+        c_enum(CA_LOCAL, NCA_LOCAL, corpus_N(ph) - 1, 2, shard, "", "@[192.0.2.1]", emit, arg);
+        c_enum(CA_LOCAL, NCA_LOCAL, corpus_N(ph) - 1, 2, shard, "", "@bad..dom", emit, arg);
+        c_enum(CA_LOCAL, NCA_LOCAL, corpus_N(ph) - 1, 2, shard, "", "@\xd0\xbf.\xd1\x80\xd1\x84", emit, arg);
+        c_enum(CA_LOCAL, NCA_LOCAL, corpus_N(ph) - 1, 2, shard, "\"a", "\"@ok.com", emit, arg);     /* the same strings as the inside of a quoted string that already holds a character */
         break;
     case CP_DOMAIN:
         c_enum(CA_DOM, 9, corpus_N(ph), 2, shard, "x@", "", emit, arg);
@@ -275,8 +281,31 @@ static void corpus_run(int ph, long shard, emit_fn emit, void *arg) {
             else { u[l++] = (char)(0xf0 | (cp >> 18)); u[l++] = (char)(0x80 | ((cp >> 12) & 0x3f)); u[l++] = (char)(0x80 | ((cp >> 6) & 0x3f)); u[l++] = (char)(0x80 | (cp & 0x3f)); }
             u[l] = 0;
             c_emit_str(emit, arg, "a%sb@ok.com", u);
-            if (CORPUS_DEEP || (cp & 0xf) == 0xe || cp < 0x3000) { c_emit_str(emit, arg, "\"%s\"@ok.com", u); c_emit_str(emit, arg, "x@%s.com", u); }
+            if (CORPUS_DEEP || (cp & 0xf) == 0xe || cp < 0x3000) { c_emit_str(emit, arg, "\"%s\"@ok.com", u); c_emit_str(emit, arg, "x@%s.com", u); c_emit_str(emit, arg, "\"a %s\"@ok.com", u); c_emit_str(emit, arg, "\"%s a\"@ok.com", u); }
         }
+    } break;
+    case CP_WHOLEDOM: {    /* a domain that consists of nothing but one code point: code points that IDNA maps to nothing give an EMPTY converted name */
+        unsigned long lo;
+        if (CORPUS_DEEP) lo = (unsigned long)shard * 0x400;
+        else { static const unsigned long BASE[] = { 0, 0x400, 0x800, 0xc00, 0x1000, 0x1400, 0x1800, 0x1c00, 0x2000, 0x2400, 0x2800, 0x2c00, 0xfe00 - 0x200, 0x1bc00, 0xe0000 }; lo = BASE[shard]; }
+        for (unsigned long cp = lo; cp < lo + 0x400; cp++) {
+            if (cp < 0x80 || (cp >= 0xd800 && cp <= 0xdfff) || cp > 0x10ffff) continue;
+            char u[8]; int l = 0;
+            if (cp < 0x800) { u[l++] = (char)(0xc0 | (cp >> 6)); u[l++] = (char)(0x80 | (cp & 0x3f)); }
+            else if (cp < 0x10000) { u[l++] = (char)(0xe0 | (cp >> 12)); u[l++] = (char)(0x80 | ((cp >> 6) & 0x3f)); u[l++] = (char)(0x80 | (cp & 0x3f)); }
+            else { u[l++] = (char)(0xf0 | (cp >> 18)); u[l++] = (char)(0x80 | ((cp >> 12) & 0x3f)); u[l++] = (char)(0x80 | ((cp >> 6) & 0x3f)); u[l++] = (char)(0x80 | (cp & 0x3f)); }
+            u[l] = 0;
+            c_emit_str(emit, arg, "x@%s", u); c_emit_str(emit, arg, "x@%s%s", u, u); c_emit_str(emit, arg, "x@%s.%s", u, u); c_emit_str(emit, arg, "x@%s.", u); c_emit_str(emit, arg, "x@a.%s", u);
+        }
+    } break;
+    case CP_LPXDOM: {      /* what the domain-part parsers search for (':', '.', ']', '[', '@', digits, the IPv6 tag) placed inside the local part */
+        static const char *const LP[40] = { "x", "a.b", "a1", "1", "1.2.3.4", "\"a:b\"", "\":\"", "\"::\"", "\"a.b\"", "\"1.2.3.4\"", "\"]\"", "\"[\"", "\"[1.2.3.4]\"", "\"@\"", "\"a@b\"",
+            "\"x@[IPv6:::1]\"", "\"IPv6:\"", "\"IPv6:1::2\"", "\"a\\:b\"", "\"a\\]b\"", "\"a\\@b\"", "\"a b\"", "\" \"", "a.\"b:c\"", "\"a:b\".c", "a-b", "a+b", "a_b", "a=b", "a/b",
+            "a:b", "a]b", "a[b", "[1.2.3.4]", "IPv6", "\"\"", "\"a\".\"b\"", "\xd0\xb6", "\"\xd0\xb6:\"", "abcdefghijklmnopqrstuvwxyzabcdefghijklmnopqrstuvwxyzabcdefghijkl" };
+        static const char *const DP[36] = { "[1.2.3.4]", "[255.255.255.255]", "[192.0.2.1]", "[0.0.0.0]", "[1.2.3.256]", "[1.2.3]", "[IPv6:::1]", "[IPv6:1:2:3:4:5:6:7:8]", "[IPv6:1::8]", "[IPv6:::]",
+            "[IPv6:1:2:3:4:5:6:1.2.3.4]", "[IPv6:::1.2.3.4]", "[::1]", "[1:2:3:4:5:6:7:8]", "[IPv6:1:2:3:4:5:6:7]", "[IPv6:1.2.3.4]", "[IPv4:1.2.3.4]", "[ipv6:::1]", "[1.2.3.4", "1.2.3.4]", "[]", "[1.2.3.4]x",
+            "1.2.3.4", "ok.com", "a.test", "example.com", "a.b.museum", "a", "a.", "a..b", "-a.com", "xn--p1ai.xn--p1ai", "\xd0\xbf.\xd1\x80\xd1\x84", "a.zz", "[IPv6:1:2:3:4:5:6:7:8]:25", "a_b.com" };
+        for (int d = 0; d < 36; d++) c_emit_str(emit, arg, "%s@%s", LP[shard], DP[d]);
     } break;
     case CP_MAXLIT: {
         static const char *const LIT[6] = { "IPv6:ffff:ffff:ffff:ffff:ffff:ffff:255.255.255.255", "ffff:ffff:ffff:ffff:ffff:ffff:ffff:ffff", "255.255.255.255",
